@@ -1,6 +1,7 @@
 package main
 
 import (
+	"crypto/tls"
 	"errors"
 	"fmt"
 	"math/rand"
@@ -24,6 +25,7 @@ type c13srv struct {
 	ln          net.Listener
 	addr        string
 	sm          bool
+	tls         bool     // the server offers the mechanisms only after STARTTLS
 	plan        []string // upcoming attempt outcomes: o t p x
 	conns       int
 	unexpected  int
@@ -79,8 +81,12 @@ func (s *c13srv) handle(c net.Conn, kind string) {
 	if s.sm {
 		smbit = "1"
 	}
-	sc := happy(false, false, s.sm).with("smid", hx("sm-c13"))
+	sc := happy(s.tls, false, s.sm).with("smid", hx("sm-c13"))
 	sc["f1"], sc["f3"] = "01"+smbit+"0", "01"+smbit+"0"
+	if s.tls {
+		// STARTTLS is all the server offers before the TLS handshake; a client that skips it finds no mechanism
+		sc["f1"], sc["f2"] = "1000", "01"+smbit+"0"
+	}
 	abrupt := false
 	switch kind {
 	case "t":
@@ -147,7 +153,7 @@ func (c13) Exec(c Case) []string {
 			defer wg.Done()
 			sem <- struct{}{}
 			defer func() { <-sem }()
-			obs[i] = c13run(op[1] == "sm", op[2], op[3])
+			obs[i] = c13run(strings.HasPrefix(op[1], "sm"), strings.HasSuffix(op[1], "tls"), op[2], op[3])
 		}(i, op)
 	}
 	wg.Wait()
@@ -163,14 +169,14 @@ func waitConn(ch chan net.Conn, d time.Duration) net.Conn {
 	}
 }
 
-func c13run(sm bool, first, lives string) string {
+func c13run(sm, useTLS bool, first, lives string) string {
 	ln, err := net.Listen("tcp", "127.0.0.1:0")
 	if err != nil {
 		return "listen-failed"
 	}
 	addr := ln.Addr().String()
 	ln.Close()
-	srv := &c13srv{addr: addr, sm: sm, established: make(chan net.Conn, 16), failedTry: make(chan string, 64)}
+	srv := &c13srv{addr: addr, sm: sm, tls: useTLS, established: make(chan net.Conn, 16), failedTry: make(chan string, 64)}
 	if err := srv.listen(); err != nil {
 		return "listen-failed"
 	}
@@ -196,6 +202,10 @@ func c13run(sm bool, first, lives string) string {
 		TransportConfiguration: xmpp.TransportConfiguration{Address: addr, Domain: "localhost"},
 		Jid:                    "test@localhost/res", Credential: xmpp.Password("secret"), Insecure: true,
 		ConnectTimeout: 1, StreamManagementEnable: sm,
+	}
+	if useTLS {
+		cfg.Insecure = false
+		cfg.TLSConfig = &tls.Config{RootCAs: getPKI().pool}
 	}
 	xmpp.VerifSetSMResume(cfg, true)
 	client, err := xmpp.NewClient(cfg, router, func(error) { mu.Lock(); errh++; mu.Unlock() })
@@ -407,6 +417,13 @@ func (c13) Generate(rng *rand.Rand, tier string, st *Stats) []Case {
 	mk(true, "o", "drop:o;drop:o")   // resumed sessions
 	mk(true, "o", "wfail:o;drop:o")  // a loss seen by a failed <a/> write: one new session, the old receiver is gone
 	mk(false, "o", "wfail:t,o;wfail:o")
+	// sessions protected by STARTTLS (the server offers nothing else before the handshake): every new connection has
+	// to go through STARTTLS again, whatever way the previous one ended
+	mkm := func(m, first, lives string) { ops = append(ops, []string{"script", m, first, lives}) }
+	mkm("nosmtls", "o", "drop:o;graceful:o")
+	mkm("smtls", "o", "drop:o;drop:t,o")
+	mkm("smtls", "o", "graceful:x,o;wfail:o")
+	mkm("nosmtls", "o", "drop:t,p")
 	endings := []string{"drop", "graceful", "wfail"}
 	attSeqs := []string{"o", "t,o", "x,o", "T,t,o", "r,o", "x,T,o", "p", "t,P"}
 	for _, sm := range []bool{false, true} {
